@@ -12,12 +12,13 @@ import (
 
 func init() {
 	register(&Prop{
-		ID:    "C10",
-		Title: "Subscriptions and the event bus shut down cleanly under any timing",
+		ID:          "C10",
+		Title:       "Subscriptions and the event bus shut down cleanly under any timing",
 		Explanation: "R10.1 every channel send in the forwarding goroutines of Value.Pull, Collection.Pull, Collection.PullID and in listener.send is a select alternative next to a receive on the subscription context's Done channel (for the lossy stages: next to a receive from their input). R10.2 every forwarding goroutine closes the channel it hands out with a defer that covers every exit. R10.3 listener.ch is closed only under the listener's exclusive lock, guarded by a non-nil test and followed by setting it to nil in the same region; it is sent on only under the read lock. R10.4 listener.send's select has both the listen-context and the send-context case. R10.5 Bus.Listen starts a goroutine that waits for the context and stops the listener; Bus.Send collects dead listeners. R10.6 a consumer loop over a context-bound producer that can leave the loop for a reason other than the channel closing or its own context ending must own a cancel function for the producer's context and call/defer it. R10.7 Bus.Send delivers without holding the registry lock. Does NOT decide absence of deadlock in general, timing bounds, or exactly-once delivery under concurrent cancel.",
 		Assumptions: []string{"a closed Done channel makes the select case ready", "close(ch) by the only sender-side owner"},
 		Run:         runC10,
 		Controls: []Control{
+			{Name: "pullid-forces-backpressure", File: "pkg/resource/collection.go", Old: "\tchanges := c.Pull(ctx, opts...)\n", New: "\tchanges := c.Pull(ctx, append(append([]ReadOption{}, opts...), WithBackpressure(true))...)\n", Expect: "R10.8"},
 			{Name: "collect-filters-in-place", File: "internal/minibus/bus.go", Old: "\tvar activeListeners []*listener\n", New: "\tactiveListeners := b.listeners[:0]\n", Expect: "R10.5"},
 			{Name: "value-pull-unconditional-send", File: "pkg/resource/value.go", Old: "\t\t\t\tcontinue\n\t\t\t}\n\t\t\tlast = change.Value\n\t\t\tselect {\n\t\t\tcase <-ctx.Done():\n\t\t\t\treturn // give up sending\n\t\t\tcase typedEvents <- change:\n\t\t\t}", New: "\t\t\t\tcontinue\n\t\t\t}\n\t\t\tlast = change.Value\n\t\t\ttypedEvents <- change", Expect: "R10.1"},
 			{Name: "collection-pull-no-defer-close", File: "pkg/resource/collection.go", Old: "\tgo func() {\n\t\tdefer close(send)\n\n\t\t// held tracks", New: "\tgo func() {\n\t\t// held tracks", Expect: "R10.2"},
@@ -40,6 +41,7 @@ func runC10(c *an.Ctx) {
 	r105(c)
 	r106(c, "R10.6")
 	r107(c)
+	r108(c, "R10.8")
 	c.Min("R10.1", 5)
 	c.Min("R10.2", 5)
 	c.Min("R10.3", 3)
@@ -47,6 +49,7 @@ func runC10(c *an.Ctx) {
 	c.Min("R10.5", 2)
 	c.Min("R10.6", 1)
 	c.Min("R10.7", 1)
+	c.Min("R10.8", 1)
 }
 
 // forwarders of pkg/resource: function -> its goroutine bodies.
@@ -703,5 +706,63 @@ func registryRebuild(c *an.Ctx, rule string) {
 	}
 	if n == 0 {
 		c.Unk(rule, "internal/minibus.Bus|stores to listeners", 0, "no store to Bus.listeners found")
+	}
+}
+
+// r108: the delivery mode of a subscription is the caller's choice. Library code never installs WithBackpressure with a
+// value of its own: a layer that forces backpressure on makes every writer wait for a subscriber that asked to be lossy
+// and has stopped receiving (writers and other subscribers stall until it cancels), one that forces it off loses events
+// for a subscriber that asked for all of them (C09). The argument of every WithBackpressure call in hand-written,
+// non-test code derives from a parameter or a request field, never from a constant.
+func r108(c *an.Ctx, rule string) {
+	wq := an.ModulePath + "/pkg/resource.WithBackpressure"
+	n := 0
+	for fn := range c.Prog.AllFuncs {
+		if c.Prog.IsGenerated(fn.Pos()) {
+			continue
+		}
+		for _, call := range an.CallsTo(fn, wq) {
+			n++
+			c.SawFunc(an.FuncName(fn))
+			constant := false
+			for _, v := range an.ValuesAt(call.Common().Args[0]) {
+				if _, isC := an.ConstBool(v); isC {
+					constant = true
+				}
+			}
+			c.Check(!constant, rule, an.FuncName(fn)+"|delivery mode comes from the caller", call.Pos(), "argument is not a constant",
+				"WithBackpressure is installed with a constant: this layer overrides the delivery mode its caller chose; forced on, a default (lossy) subscriber that stops receiving blocks bus.Send for every writer and every other subscriber until it cancels; forced off, a subscriber that asked for every event loses some")
+		}
+	}
+	// the same through the field: only the option itself writes ReadRequest.Backpressure
+	for fn := range c.Prog.AllFuncs {
+		if c.Prog.IsGenerated(fn.Pos()) {
+			continue
+		}
+		an.Instrs(fn, func(in ssa.Instruction) {
+			st, ok := in.(*ssa.Store)
+			if !ok {
+				return
+			}
+			_, sn, f, isField := an.FieldOf(st.Addr)
+			if !isField || f != "Backpressure" || !strings.HasSuffix(sn, "/pkg/resource.ReadRequest") {
+				return
+			}
+			if p := fn.Parent(); p != nil && an.FuncQName(p) == wq {
+				return
+			}
+			if an.IsFresh(st.Addr) {
+				// a literal built from another request is R09.8's business
+				if _, isC := an.ConstBool(st.Val); !isC {
+					return
+				}
+			}
+			n++
+			c.Bad(rule, an.FuncName(fn)+"|delivery mode comes from the caller", st.Pos(), "ReadRequest.Backpressure is written outside the WithBackpressure option: this layer overrides the delivery mode its caller chose (writers stall behind a lossy subscriber, or a subscriber that asked for every event loses some)")
+		})
+	}
+	c.Count("with_backpressure_calls", n)
+	if n == 0 {
+		c.Ok(rule, "module|no layer installs a delivery mode of its own", 0, "no call of resource.WithBackpressure outside tests")
 	}
 }
